@@ -29,7 +29,7 @@ def hx(b):
     return b.hex() if b else ""
 
 
-def socks5_try(port, org_port, methods, creds, timeout=4.0):
+def socks5_try(port, org_port, methods, creds, timeout=4.0, cmd=1):
     """returns (selected method byte or None, auth reply, final reply, origin contacted later by caller)"""
     c = socket.create_connection((LOOP, port), timeout=timeout)
     try:
@@ -42,7 +42,7 @@ def socks5_try(port, org_port, methods, creds, timeout=4.0):
             u, p = creds if creds is not None else (b"", b"")
             c.sendall(bytes([1, len(u) & 0xff]) + u[:255] + bytes([len(p) & 0xff]) + p[:255])
             ar = e2e.recv_exact(c, 2, timeout)
-        c.sendall(b"\x05\x01\x00\x01" + socket.inet_aton(LOOP) + struct.pack(">H", org_port))
+        c.sendall(bytes([5, cmd, 0, 1]) + socket.inet_aton(LOOP) + struct.pack(">H", org_port))
         rep = e2e.recv_exact(c, 10, timeout)
         return sel, ar, rep
     except OSError:
@@ -145,6 +145,22 @@ def run(tier, seed, replay=None):
             attempt("optional listener, methods %s, no credentials" % ms, lp["opt"], ms, None, 0 in ms or 2 in ms)
         for u, pw in [(b"", b""), (b"alice", b""), (b"", b"secret"), (b"alice\x00", b"secret"), (b"\xff\xfe", b"\xff"), (b"a" * 255, b"b" * 255), (b"alice", b"secret\n"), (b"carol", b"pw2"), (b"dave", b"pw1")]:
             attempt("required listener, credentials %r/%r" % (u[:12], pw[:12]), lp["req"], [2], (u, pw), False)
+        # every command, not only CONNECT: a UDP association (the listener allows UDP by default) is routed like any request, and
+        # BIND / unknown commands must be refused to everybody
+        for cmd_, name_ in ((3, "UDP ASSOCIATE"), (2, "BIND"), (9, "command 9")):
+            for creds_, who in (((b"alice", b"wrong"), "a wrong password"), ((b"mallory", b"x"), "an unknown user"), ((b"", b""), "empty credentials")):
+                sel_, ar_, rp_ = socks5_try(lp["req"], org.port, [2], creds_, cmd=cmd_)
+                time.sleep(0.15)
+                n_eval += 1
+                dist["socks:cmd%d" % cmd_] += 1
+                served = rp_[:2] == b"\x05\x00"
+                if served:
+                    rep.fail("C07: required listener, SOCKS5 %s with %s: the request was served (reply %s)" % (name_, who, rp_.hex()),
+                             {"kind": "failing-input", "scenario": "%s with %s" % (name_, who), "methods": [2], "creds": [hx(x) for x in creds_]})
+            sel_, ar_, rp_ = socks5_try(lp["req"], org.port, [2], (b"alice", b"secret"), cmd=cmd_)
+            n_eval += 1
+            if cmd_ == 3 and rp_[:2] != b"\x05\x00":
+                rep.fail("C07: required listener, SOCKS5 UDP ASSOCIATE with valid credentials was refused (reply %s)" % rp_.hex(), {"kind": "failing-input", "scenario": "udp associate valid"})
         attempt("required listener, SOCKS4 id 'alice' (no password possible)", lp["req"], None, None, False, socks4_user=b"alice")
         attempt("required listener, SOCKS4 empty id", lp["req"], None, None, False, socks4_user=b"")
         # command + cache: right, then wrong password for the same user, then revocation and expiry
